@@ -145,7 +145,9 @@ PATHCLS = ["fresh", "existing", "missing-dir", "below-a-file", "is-a-directory",
 CREATE_FAILS = ("missing-dir", "below-a-file", "is-a-directory", "readonly-dir", "empty-path")
 DASH_SPELLINGS = ["-", "-/", "-/.", "-//", "-/./"]
 FSIZE = 4096
-OLD = b"-- old content that must survive a failed compilation\n"
+# longer than any program the cases emit: a successful `-o FILE` over an existing file must REPLACE it (a writer that
+# does not truncate leaves the tail of the old content behind)
+OLD = b"-- old content that must survive a failed compilation\n" + b"-- stale line of the previous content\n" * 40000
 
 
 def gen_cases(ctx):
